@@ -131,6 +131,14 @@ def applyFmt : Fmt → List Char → List Char
   | .upper, s => s.map Char.toUpper
   | .lower, s => s.map Char.toLower
 
+/-- `TypedArgBase::format( val, idx)` for `idx ≥ 0`: the formatters stored with `addFormatPos( idx, …)`, in the
+    order of the calls (`mFormats[ idx + 1]`); a position for which nothing is stored — in particular one
+    beyond the last slot of `mFormats` — leaves the text unchanged.  The list is the sequence of
+    `addFormatPos` calls. -/
+def applyPos : List (Nat × Fmt) → Nat → List Char → List Char
+  | [], _, s => s
+  | (i, f) :: r, p, s => applyPos r p (if i = p then applyFmt f s else s)
+
 /-! ## element types -/
 
 /-- what the model needs of an element type: `lexical_cast<T>` and `operator<=` -/
@@ -193,6 +201,12 @@ def SeqKind.prepend : SeqKind → Bool
   | .fwdlist => true
   | _ => false
 
+/-- `ContainerAdapter<…>::AllowsPositionFormat`: `true` for `std::vector` only ("the values stored in the
+    container keep their order") -/
+def SeqKind.allowsPos : SeqKind → Bool
+  | .vec => true
+  | _ => false
+
 /-- the order in which the content is seen from outside: iteration order; a stack (kept in push order in the
     model) and a priority queue (kept ascending) are popped from the other end -/
 def observe {α : Type} (k : SeqKind) (c : List α) : List α :=
@@ -208,13 +222,16 @@ structure Opts where
   dupErr : Bool := false
   checks : List Check := []
   fmt : Fmt := .none
+  fmtPos : List (Nat × Fmt) := []     -- the calls `addFormatPos( idx, uppercase()/lowercase())`, in order
   deriving Repr
 
 /-- `setSortData()` / `setUniqueData()` at definition time: the base class throws `std::invalid_argument`
-    for the kinds that cannot do it -/
+    for the kinds that cannot do it; `addFormatPos` on an adapter with `AllowsPositionFormat == false` ends in
+    `TypedArgBase::addFormatPos`, which throws `std::logic_error` (the options are applied in this order) -/
 def configure (k : SeqKind) (o : Opts) : Res Unit :=
   if o.sort && !k.sortable then .throw .invalid_argument
   else if o.unique && !k.hasIterators then .throw .invalid_argument
+  else if !o.fmtPos.isEmpty && !k.allowsPos then .throw .logic_error
   else .ok ()
 
 structure SeqState (α : Type) where
@@ -253,12 +270,18 @@ def storeValue (c : List α) (v : α) : Res (List α) :=
     | .oob w => .oob w
   else .ok (addValue E k v c)
 
-/-- one token of the list: `check`, `format`, `lexical_cast`, duplicate handling, `addValue` -/
+/-- `format( list_val); if (AllowsPositionFormat) format( list_val, mDestVar.size());` — the general format
+    first, then the formatters of the position `p` = number of elements in the destination right now -/
+def fmtSeq (p : Nat) (t : List Char) : List Char :=
+  if k.allowsPos then applyPos o.fmtPos p (applyFmt o.fmt t) else applyFmt o.fmt t
+
+/-- one token of the list: `check` (on the text as given), `format`, `lexical_cast`, duplicate handling,
+    `addValue` -/
 def elemStep (c : List α) (t : List Char) : Res (List α) :=
   match runChecks o.checks t with
   | some e => .throw e
   | none =>
-    match E.conv (applyFmt o.fmt t) with
+    match E.conv (fmtSeq k o c.length t) with
     | none => .throw .bad_cast
     | some v => storeValue E k o c v
 
@@ -326,13 +349,14 @@ def ArrState.store (s : ArrState α) (v : α) : Res (ArrState α) :=
 /-- `mIndex == N` is tested before anything else is done with the token.
     `uniqueWhole = true` is the code before the repair: `common::contains( mDestVar, value)` searched all N
     slots, also those not filled yet.  Generic in the element type (`lexical_cast<T>`, `operator<`), like the
-    C++ template. -/
+    C++ template.  Formats: `format( list_val); format( list_val, mIndex);` — general first, then the
+    formatters of the slot the value is about to be stored in. -/
 def arrStep (o : Opts) (uniqueWhole : Bool) (s : ArrState α) (t : List Char) : Res (ArrState α) :=
   if s.idx = s.slots.length then .throw .runtime_error
   else match runChecks o.checks t with
     | some e => .throw e
     | none =>
-      match E.conv (applyFmt o.fmt t) with
+      match E.conv (applyPos o.fmtPos s.idx (applyFmt o.fmt t)) with
       | none => .throw .bad_cast
       | some v =>
         if o.unique && decide (v ∈ (if uniqueWhole then s.slots else s.slots.take s.idx)) then
@@ -371,9 +395,11 @@ def arrFinalSpec (o : Opts) (init : List α) (vs : List α) : ArrState α :=
 
 end arr
 
-/-- arrays have no clear-before-assign (`setClearBeforeAssign` is the throwing base-class version) -/
-def arrConfigure (o : Opts) : Res Unit :=
-  if o.clear then .throw .invalid_argument else .ok ()
+/-- arrays of `n` slots have no clear-before-assign (`setClearBeforeAssign` is the throwing base-class
+    version); `addFormatPos( idx, …)` with `idx >= N` throws `std::range_error` -/
+def arrConfigure (n : Nat) (o : Opts) : Res Unit :=
+  if o.clear then .throw .invalid_argument
+  else if o.fmtPos.any (fun q => decide (q.1 ≥ n)) then .throw .range_error else .ok ()
 
 /-! ## `TypedArg<std::bitset<N>>` -/
 
@@ -412,8 +438,10 @@ def bitRunP (o : Opts) (s : BitState) : List (List Char) → Out BitState
     | (s', none) => bitRunP o s' us
     | (s', some st) => (s', some st)
 
+/-- a bitset does not override `addFormatPos`: the base class throws `std::logic_error` -/
 def bitConfigure (o : Opts) : Res Unit :=
-  if o.sort || o.unique then .throw .invalid_argument else .ok ()
+  if o.sort || o.unique then .throw .invalid_argument
+  else if !o.fmtPos.isEmpty then .throw .logic_error else .ok ()
 
 /-- bit `i` is set iff it was set before (and not cleared) or `i` is among the positions given -/
 def bitFinalSpec (o : Opts) (init : List Bool) (ps : List Nat) : List Bool :=
@@ -538,7 +566,8 @@ def tupLen : Nat := 3
 def TupState.gotValue (s : TupState) : Res TupState :=
   if s.card + 1 > tupLen then .throw .runtime_error else .ok { s with card := s.card + 1 }
 
-/-- `tuple_at_index( mNumValuesSet, …)` with `lexical_cast` to the type of that position -/
+/-- `tuple_at_index( mNumValuesSet, …)` with `lexical_cast` to the type of that position (`t` is the text
+    after formatting) -/
 def TupState.put (s : TupState) (t : List Char) : Res TupState :=
   match s.numSet with
   | 0 => match convInt t with
@@ -550,7 +579,9 @@ def TupState.put (s : TupState) (t : List Char) : Res TupState :=
     | none => .throw .bad_cast
   | _ => .throw .out_of_range
 
-/-- loop body for the token number `i` of this use -/
+/-- loop body for the token number `i` of this use: cardinality, `check`, then
+    `format( list_val, mNumValuesSet)` — only the formatters of the tuple position that is filled next (a tuple
+    has no general format), *not* of the token's index `i` in this list —, then the store -/
 def tupStep (o : Opts) (s : TupState) (i : Nat) (t : List Char) : Res TupState :=
   match (if i > 0 then s.gotValue else .ok s) with
   | .throw e => .throw e
@@ -558,7 +589,7 @@ def tupStep (o : Opts) (s : TupState) (i : Nat) (t : List Char) : Res TupState :
   | .ok s1 =>
     match runChecks o.checks t with
     | some e => .throw e
-    | none => s1.put t
+    | none => s1.put (applyPos o.fmtPos s1.numSet t)
 
 def tupElems (o : Opts) (s : TupState) (i : Nat) : List (List Char) → Out TupState
   | [] => (s, none)
@@ -586,8 +617,11 @@ def tupRunP (o : Opts) (s : TupState) : List (List Char) → Out TupState
 def TupState.finish (s : TupState) : Out TupState :=
   if s.card > 0 ∧ s.card ≠ tupLen then (s, some (.exc .runtime_error)) else (s, none)
 
+/-- `addFormat` on a tuple throws `std::logic_error`; `addFormatPos( idx, …)` with `idx >= tuple length`
+    throws `std::range_error` -/
 def tupConfigure (o : Opts) : Res Unit :=
   if o.clear || o.sort || o.unique then .throw .invalid_argument
-  else if o.fmt ≠ .none then .throw .logic_error else .ok ()
+  else if o.fmt ≠ .none then .throw .logic_error
+  else if o.fmtPos.any (fun q => decide (q.1 ≥ tupLen)) then .throw .range_error else .ok ()
 
 end CelmaVerif.Containers
